@@ -41,6 +41,9 @@ FULL_FORMATS = [
 ]
 PARTIAL = ["HH:mm", "HH:mm:ss", "hh:mm A", "H", "MM-DD", "MM-DD HH:mm", "DD", "D HH:mm:ss.SSS", "YYYY", "YYYY-MM", "YYYY HH", "MM",
            "M/D", "HH:mm:ss.SSSSSS", "mm:ss", "Q", "DDDD", "YYYY-DDD"]
+# a weekday name (and at most a time) and nothing else of the date: the day is the one of now's week
+# (in the requested zone) that falls on that weekday - whatever side of a month or year end it lies on
+WEEKDAY_PARTIAL = ["dddd HH:mm", "ddd HH:mm:ss", "dddd", "ddd H"]
 HELPERS = ["to_time_string", "to_datetime_string", "to_date_string", "to_atom_string", "to_cookie_string", "to_iso8601_string",
            "to_rfc822_string", "to_rfc850_string", "to_rfc1036_string", "to_rfc1123_string", "to_rfc2822_string",
            "to_rfc3339_string", "to_rss_string", "to_w3c_string", "to_day_datetime_string", "to_formatted_date_string"]
@@ -324,6 +327,11 @@ def gen(rp, rw, tier):
                 fmt = rp.choice(PARTIAL)
                 z = rp.choice([zone_clock, zone_clock, rp.choice(ZONES2), "UTC"])
                 src, sm = _value(rp, full=True)
+                if rp.random() < 0.15:
+                    fmt = rp.choice(WEEKDAY_PARTIAL)
+                    text = render(fmt, sm["f"], sm["off"], sm["zone"], "en")
+                    ops.append(["pcall", "from_format", [text, fmt], {"locale": "en", "tz": gen_dt.tz_spec(z)}, "weekday", list(sm["f"])])
+                    continue
                 if _localized(fmt) and "locale" not in kw:
                     kw = {"locale": rp.choice(locales)}
                 text = render(fmt, sm["f"], sm["off"], sm["zone"], kw.get("locale", "en"))
@@ -484,6 +492,15 @@ def l2_check(run):
                     if not (isinstance(o, list) and o and o[0] == "DateTime" and o[1] == want and o[3] == 0):
                         _viol(viols, "timestamp", a, i, op, rec, {"text": text, "want_fields_utc": want})
                     continue
+                if len(op) > 5 and op[4] == "weekday":
+                    n += 1
+                    if not _weekday_ok(o, fmt, op[5], tzarg, cands["clock"]):
+                        _viol(viols, "fill_from_now", a, i, op, rec,
+                              {"format": fmt, "text": text, "tz": tzarg, "clock_candidates": cands["clock"],
+                               "now_in_zone": [_now_fields(tzarg, c) for c in cands["clock"]],
+                               "asserted": "the day of now's week (in tz) that falls on the weekday of the string, time as given"},
+                              {"raises": o[1] if isinstance(o, list) and o and o[0] == "EXC" else None, "weekday_only": True})
+                    continue
                 if fmt in PARTIAL and not (len(op) > 4 and op[4] == "mismatch"):
                     src_fields = _parse_back(fmt, text, kw.get("locale"))
                     if src_fields is None:
@@ -551,6 +568,39 @@ def l2_check(run):
                     if not (isinstance(o, list) and o and o[0] == "EXC" and o[1] == "ValueError"):
                         _viol(viols, "mismatch_must_raise", a, i, op, rec, {"format": fmt, "text": text})
     return viols, {"l2_evals": n}
+
+
+def _weekday_ok(o, fmt, src_f, tzarg, clocks):
+    """weekday-only formats: the result is a day at most 6 days from now's date in the zone, on the
+    weekday the string names, at the time the string gives (absent time fields 0), completed by the
+    construction rules, in the requested zone."""
+    from .c02 import rule
+
+    if not (isinstance(o, list) and o and o[0] == "DateTime"):
+        return False
+    if not (o[4] is not None and o[4][1] == tzarg):
+        return False
+    toks = [v for k, v in tokenize(fmt) if k == "tok"]
+    H = src_f[3] if ({"HH", "H"} & set(toks)) else 0
+    M = src_f[4] if "mm" in toks else 0
+    S = src_f[5] if "ss" in toks else 0
+    wd = _dt.date(*src_f[:3]).weekday()
+    for c in clocks:
+        nd = _dt.date(*_now_fields(tzarg, c)[:3])
+        for k in range(-6, 7):
+            try:
+                d = nd + _dt.timedelta(days=k)
+            except OverflowError:
+                continue
+            if d.weekday() != wd:
+                continue
+            w = [d.year, d.month, d.day, H, M, S, 0]
+            r = rule(tzarg, w, 1, False)
+            if r is None:
+                return True
+            if r[0] == "ok" and o[1] == r[1] and o[3] == r[2]:
+                return True
+    return False
 
 
 def _parse_back(fmt, text, loc=None):
